@@ -63,7 +63,7 @@ fn emit_sequence(
     }
     out.push(json!("/ev"));
 
-    for (index, _) in sequence.branches.iter().enumerate() {
+    for index in 0..branch_count {
         out.push(json!("ev"));
         out.push(json!("du"));
         out.push(json!(index as i32));
